@@ -344,7 +344,7 @@ for _k, _v in _WIDEN_N.items():
     PROPS[_k].setdefault('widen_n', _v)
 
 _LEVEL_EXTRA = {
-    "C05": " Column-changing branches: the by-name resolution `resolveRecCols` used for them is proved to coincide with the same-columns resolution when all tables share the base's columns (C05_cols_model_extends_same).",
+    "C05": " The per-cell decision chain is additionally tied to the source by a regenerated guard table: extract/paths.go lists the guards in front of every unresolveCol(i) of tryResolve, and C05_unresolve_table_is_model proves over all 216 situations of a step that the table fires exactly when the model's cellStep marks the column unresolved. Column-changing branches: the by-name resolution `resolveRecCols` used for them is proved to coincide with the same-columns resolution when all tables share the base's columns (C05_cols_model_extends_same).",
     "C06": " Block index codec: round trip, re-encoding and injectivity (C06_blockIndex_*); the pre-allocation cap of the decoders is extracted as never bounding a read loop.",
     "C08": " Across wants: C08_all_wants (one whole call of enqueueWants: closed for every non-pending want, acceptable at every position, sound). Across the round's bookkeeping: C08_accepts_reachable_wants and C08_process_sound (Process accepts exactly the wants reachable from refs whatever the timestamps; every ack is a have that is an ancestor of a ref).",
     "C11": " Walks from any list of start points, repeats included, pop every ancestor exactly once (C11_walk_multi_each_once).",
